@@ -114,7 +114,16 @@ type ReachDiscipline struct {
 	Tags             []string
 }
 
+// DetDiscipline: the listed functions are compositions of deterministic operations: every call goes to an
+// allowed (deterministic, assumed or listed) callee, and they contain no map iteration, no channel
+// operation, no goroutine and no select.
+type DetDiscipline struct {
+	Funcs, Allowed []string
+	Tags           []string
+}
+
 type Unit struct {
+	DetDisciplines   []DetDiscipline
 	ReachDisciplines []ReachDiscipline
 	FieldDisciplines []FieldDiscipline
 	Disciplines []Discipline
@@ -505,6 +514,32 @@ func (cs *ContractSet) parseFile(file, relDir string) error {
 			unit.Specs[sf.Name] = sf
 			unit.SpecList = append(unit.SpecList, sf)
 		case "discipline":
+			if unit != nil && strings.HasPrefix(s.rest, "deterministic ") {
+				// discipline deterministic f1, f2 allow c1, c2 tags C13
+				rest := strings.TrimPrefix(s.rest, "deterministic ")
+				var tags []string
+				if k := strings.Index(rest, " tags "); k >= 0 {
+					tags = strings.Fields(rest[k+6:])
+					rest = rest[:k]
+				}
+				k := strings.Index(rest, " allow ")
+				if k < 0 {
+					return fmt.Errorf("%s:%d: discipline deterministic f1, f2 allow c1, c2 tags T", file, s.line)
+				}
+				dd := DetDiscipline{Tags: tags}
+				for _, a := range splitTop(rest[:k], ',') {
+					if a = strings.TrimSpace(a); a != "" {
+						dd.Funcs = append(dd.Funcs, qualifyKey(a, pkgName))
+					}
+				}
+				for _, a := range splitTop(rest[k+7:], ',') {
+					if a = strings.TrimSpace(a); a != "" {
+						dd.Allowed = append(dd.Allowed, a)
+					}
+				}
+				unit.DetDisciplines = append(unit.DetDisciplines, dd)
+				continue
+			}
 			if unit != nil && strings.HasPrefix(s.rest, "no-reach ") {
 				// discipline no-reach from f1, f2 to c1, c2 tags C19
 				rest := strings.TrimPrefix(s.rest, "no-reach ")
